@@ -227,6 +227,7 @@ func runC06(c *Ctx) {
 		"C06.W every memdb write on a non-index table in package state is followed, on every feasible non-failing path (in the same function or in every caller up to 3 frames), by a bump of an index key its readers consult",
 		"C06.W0 the index setters only skip the write when the stored index is already >= the new one",
 		"C06.X the 'service exists' argument of the per-service index lookup is the constant true or an accumulator updated on every iteration over the service's instances (so it is false only when there is none): otherwise the older extinction index is reported for a live service",
+		"C06.Q.raise the blocking-query loop raises its wait threshold on a not-found result only when the previous pass was not-found too (found → deleted is a change)",
 		"C06.Q the blocking-query loop sets query meta after every query run and returns only on index progress, error, timeout or abandon; the reported index is never zero",
 	}
 	r.NotDecided = []string{
@@ -644,6 +645,93 @@ func checkBlockingQueryLoop(c *Ctx) {
 	r.Floor("C06.Q.abandon", 1)
 	r.Floor("C06.Q.progress", 1)
 
+	// (d) the wait threshold is raised to the current index only for a repeated "not found":
+	// found → not found is a change and must be returned, not waited on.
+	if loopFn != nil {
+		f := loopFn
+		nfEdges := errorsIsEdges(f, "ErrNotFound")
+		nRaise := 0
+		for _, b := range f.Blocks {
+			for _, in := range b.Instrs {
+				phi, ok := in.(*ssa.Phi)
+				if !ok || !isUint(phi.Type()) {
+					continue
+				}
+				for i, e := range phi.Edges {
+					call, ok := e.(*ssa.Call)
+					if !ok || core.MethodNameOf(&call.Call) != "GetIndex" {
+						continue
+					}
+					pred := phi.Block().Preds[i]
+					// is this raise reachable from a not-found pass?
+					fromNF := false
+					for _, ne := range nfEdges {
+						if ne.From.Succs[ne.Succ] == pred || reachesBlockWithin(ne.From.Succs[ne.Succ], pred, ne.From) {
+							fromNF = true
+						}
+					}
+					if !fromNF {
+						continue
+					}
+					nRaise++
+					construct := core.FuncName(f) + "/raise-on-not-found"
+					// the boolean flag guarding the raise
+					var flag *ssa.Phi
+					for _, bb := range f.Blocks {
+						if len(bb.Instrs) == 0 {
+							continue
+						}
+						iff, ok := bb.Instrs[len(bb.Instrs)-1].(*ssa.If)
+						if !ok {
+							continue
+						}
+						if ph, ok := iff.Cond.(*ssa.Phi); ok && core.EdgeDominates(bb, 0, call.Block()) {
+							flag = ph
+						}
+					}
+					if flag == nil {
+						r.Violate("C06.Q.raise", construct, p.Pos(call.Pos()), "the wait threshold is raised to the current index on a not-found result without knowing that the previous result was not-found too: an item deleted while a query is blocked on it is treated as 'no change' and the query sleeps until its timeout")
+						continue
+					}
+					// every assignment of true to the flag lies below a not-found edge
+					bad := ""
+					seen := map[*ssa.Phi]bool{}
+					var visit func(ph *ssa.Phi)
+					visit = func(ph *ssa.Phi) {
+						if seen[ph] {
+							return
+						}
+						seen[ph] = true
+						for j, ev := range ph.Edges {
+							switch x := ev.(type) {
+							case *ssa.Phi:
+								visit(x)
+							case *ssa.Const:
+								if v, ok := core.ConstBool(x); ok && v {
+									q := ph.Block().Preds[j]
+									if len(nfEdges) == 0 || !core.CutMakesUnreachable(f, nil, nfEdges, q.Instrs[0]) {
+										bad = p.Pos(firstPos(q))
+									}
+								}
+							default:
+								bad = "a computed value"
+							}
+						}
+					}
+					visit(flag)
+					if bad != "" {
+						r.Violate("C06.Q.raise", construct, p.Pos(call.Pos()), "on a not-found result the wait threshold is raised to the current index under a flag that is also set by passes that found the item (set at "+bad+"): found → deleted is then treated as 'no change', the blocked query goes back to sleep and the client learns of the deletion only at its timeout")
+					} else {
+						r.Hold("C06.Q.raise", construct, p.Pos(call.Pos()), "raised on not-found only when the previous pass was not-found as well")
+					}
+				}
+			}
+		}
+		if nRaise == 0 {
+			r.Hold("C06.Q.raise", core.FuncName(f)+"/raise-on-not-found", p.FuncPos(f), "the threshold is never raised on a not-found result")
+		}
+	}
+
 	// (e) the reported index is never zero: every implementation of SetQueryMeta in agent/consul
 	n := 0
 	for _, g := range p.SrcFuncs("agent/consul") {
@@ -704,4 +792,27 @@ func checkBlockingQueryLoop(c *Ctx) {
 		}
 	}
 	r.Floor("C06.Q.nonzero", 1)
+}
+
+// reachesBlockWithin: to is reachable from from without passing through stop
+// (other than as the target).
+func reachesBlockWithin(from, to, stop *ssa.BasicBlock) bool {
+	seen := map[*ssa.BasicBlock]bool{}
+	var visit func(b *ssa.BasicBlock) bool
+	visit = func(b *ssa.BasicBlock) bool {
+		if b == to {
+			return true
+		}
+		if seen[b] || b == stop {
+			return false
+		}
+		seen[b] = true
+		for _, s := range b.Succs {
+			if visit(s) {
+				return true
+			}
+		}
+		return false
+	}
+	return visit(from)
 }
